@@ -154,6 +154,15 @@ def check_setup(kem, aead, mode, acc):
     if sc.auth:
         other, _, _ = _priv(kem, "S2")
         variants += [("sender-identity", dict(sender_key=other.public_key()))]
+    # RFC 9180 4.1: Decap() binds the key schedule to the enc OCTETS AS RECEIVED.  A different octet string that
+    # decodes to the same public key (X25519 ignores bit 255; a compressed SEC1 point; ...) must therefore not open a
+    # message sealed for the canonical enc: either set-up refuses it or unseal() fails.
+    if kem == 0x20:
+        variants += [("enc-octets", dict(enc=sc.enc[:-1] + bytes([sc.enc[-1] ^ 0x80])))]
+    elif kem in (0x10, 0x11, 0x12):
+        c = REC.CURVES[KEM_CURVE[kem]]
+        P = REC.sec1_decode(c, sc.enc)
+        variants += [("enc-octets", dict(enc=REC.sec1_encode(c, P, compressed=True)))]
     for vname, over in variants:
         acc.count("transitions")
         try:
